@@ -79,7 +79,11 @@ func (w *World) runLevel(g *Grammar, fn *ssa.Function, tok int64, name string) [
 			// first operand call leaves K (and the name) in the scanner, every
 			// later one leaves the token unknown
 			if !w.setTokenOnce(st, args, scannerField, tokIdx, nameIdx, tok, name) {
-				w.forgetToken(st, args, scannerField, tokIdx, nameIdx)
+				// chains: the operand after the first operator may leave a second
+				// operator of the level (levelSecond), every later one an unknown token
+				if levelSecond == nil || !w.setTokenSecond(st, args, scannerField, tokIdx, nameIdx, levelSecond.tok, levelSecond.name) {
+					w.forgetToken(st, args, scannerField, tokIdx, nameIdx)
+				}
 			}
 			return true, AVal{Kind: avUnknown, Tag: tag}
 		case ai.w.inPkg(callee) && w.reachesFn(callee, g.NextItem, 4) && !g.isNodeParser(callee) && !w.isGenericParserHelper(g, callee):
@@ -126,6 +130,42 @@ func (w *World) runLevel(g *Grammar, fn *ssa.Function, tok int64, name string) [
 }
 
 const firstOperandDone = 100001
+const secondOperandDone = 100002
+
+// levelSecond: when set, the token the second operand call of runLevel leaves.
+var levelSecond *struct {
+	tok  int64
+	name string
+}
+
+func (w *World) setTokenSecond(st *AState, args []AVal, scannerField, tokIdx, nameIdx int, tok int64, name string) bool {
+	for _, a := range args {
+		if a.Kind != avPtr || a.Field >= 0 || scannerField < 0 {
+			continue
+		}
+		o := st.obj(a.Obj)
+		sp, ok := o.Fields[scannerField]
+		if !ok || sp.Kind != avPtr {
+			continue
+		}
+		so := st.obj(sp.Obj)
+		if _, done := so.Fields[secondOperandDone]; done {
+			return false
+		}
+		so.Fields[secondOperandDone] = aBool(true)
+		so.Fields[tokIdx] = aInt(tok)
+		if name != "" {
+			so.Fields[nameIdx] = aStr(name)
+			if levelPrefixIdx >= 0 {
+				so.Fields[levelPrefixIdx] = aStr("")
+			}
+		} else {
+			so.Fields[nameIdx] = aUnknown(nil)
+		}
+		return true
+	}
+	return false
+}
 
 // levelPrefixIdx: index of the scanner's prefix field (set by runLevel).
 var levelPrefixIdx = -1
@@ -366,6 +406,43 @@ func (g *Grammar) levelShapeAI(w *World, fn *ssa.Function) *Level {
 		}
 	}
 	lv.Ops = ops
+	// chains of two different operators of the level: the second operator node is
+	// built with the second operator (a - b + c is not a - b - c)
+	for _, a := range ops {
+		for _, b := range ops {
+			if a.Op == b.Op || len(problems) > 0 {
+				continue
+			}
+			an, bn := "", ""
+			if a.IsName {
+				an = a.Name
+			}
+			if b.IsName {
+				bn = b.Name
+			}
+			levelSecond = &struct {
+				tok  int64
+				name string
+			}{b.Tok, bn}
+			outs := w.runLevel(g, fn, a.Tok, an)
+			levelSecond = nil
+			for _, evs := range outs {
+				var opsSeen []levelEvent
+				for _, ev := range evs {
+					if ev.Kind == "opnode" {
+						opsSeen = append(opsSeen, ev)
+					}
+				}
+				if len(opsSeen) < 2 {
+					continue
+				}
+				if s1, ok := opsSeen[1].Op.Str(); !ok || s1 != b.Op {
+					got := opsSeen[1].Op.String()
+					problems[fmt.Sprintf("in a chain of two different operators of this level the second operator node is built with %s instead of %q (x %s y %s z is computed with the first operator twice)", got, b.Op, a.Op, b.Op)] = true
+				}
+			}
+		}
+	}
 	for f := range rights {
 		lv.Rights = append(lv.Rights, f)
 	}
